@@ -48,6 +48,7 @@
 #include <memory>
 #include <set>
 #include <sys/ioctl.h>
+#include <sys/socket.h>
 #include <linux/sockios.h>
 #include <linux/tcp.h>
 #include <netinet/in.h>
@@ -484,8 +485,10 @@ struct World {
         if (verbose) fprintf(stderr, "  settle: %d iterations, %lld us\n", iters, (long long)(t.nsecsElapsed() / 1000));
     }
 
+    QByteArray *capture = nullptr;   // while set, srvSend() collects instead of writing (several elements in ONE segment)
     void srvSend(const QByteArray &xml)
     {
+        if (capture) { *capture += xml; return; }
         auto c = conn();
         if (!c || c->closed || c->sock->state() != QAbstractSocket::ConnectedState) return;
         c->sock->write(xml);
@@ -603,6 +606,15 @@ struct Runner {
     // returns the observation
     std::string apply(const std::string &opStr)
     {
+        perform(opStr);
+        long long st = w.settleTimeouts;
+        w.settle();
+        if (w.settleTimeouts != st) fprintf(stderr, "harness: ... during op '%s'\n", opStr.c_str());
+        return w.takeObs();
+    }
+
+    void perform(const std::string &opStr)
+    {
         const QStringList t = QString::fromStdString(opStr).split(' ', Qt::SkipEmptyParts);
         const QString op = t.value(0);
         auto &c = w;
@@ -610,7 +622,7 @@ struct Runner {
             if (k->delivered == 0) k->firstIsHeader = (op == "hdr");
             k->delivered++;
             if (op == "hdr" && t.value(1) == "0") k->sawVersionlessHeader = true;
-            if (op == "iqget" || op == "iqset") k->sawIqRequest = true;
+            if (op == "iqget" || op == "iqset" || (op == "xel" && t.value(2).startsWith("iq"))) k->sawIqRequest = true;
             if (op == "feat" && t.contains("c1")) k->sawCsiFeature = true;
         }
         if (op == "connect") {
@@ -721,6 +733,48 @@ struct Runner {
             if (k == "version") c.srvSend("<iq type='get' id='srv1'" + from + "><query xmlns='jabber:iq:version'/></iq>");
             else if (k == "disco") c.srvSend("<iq type='get' id='srv2'" + from + "><query xmlns='http://jabber.org/protocol/disco#info'/></iq>");
             else c.srvSend("<iq type='get' id='srv3'" + from + "><query xmlns='urn:example:unknown'/></iq>");
+        } else if (op == "xel") {
+            // xel <f|e|s> <iqget-version|iqget-unknown|iqset|iqresult-pending|message|presence>: a stanza-SHAPED element that is NOT in
+            // jabber:client (f: foreign namespace urn:foo, e: empty namespace, s: jabber:server)
+            const QByteArray ns = t.value(1) == "f" ? "urn:foo" : t.value(1) == "s" ? "jabber:server" : "";
+            const QString k = t.value(2);
+            const QByteArray from = " from='" + DOMAIN.toUtf8() + "'";
+            if (k == "iqget-version") c.srvSend("<iq xmlns='" + ns + "' type='get' id='xv1'" + from + "><query xmlns='jabber:iq:version'/></iq>");
+            else if (k == "iqget-unknown") c.srvSend("<iq xmlns='" + ns + "' type='get' id='xv2'" + from + "><query xmlns='urn:example:unknown'/></iq>");
+            else if (k == "iqset") c.srvSend("<iq xmlns='" + ns + "' type='set' id='xv3'" + from + "><query xmlns='urn:example:unknown'/></iq>");
+            else if (k == "iqresult-pending") {
+                QByteArray id = c.outstandingIds.isEmpty() ? QByteArray("none") : c.outstandingIds.last().toUtf8();
+                c.srvSend("<iq xmlns='" + ns + "' type='result' id='" + id + "'/>");
+            } else if (k == "message") c.srvSend("<message xmlns='" + ns + "' from='bob@" + DOMAIN.toUtf8() + "/x' type='chat'><body xmlns='" + ns + "'>hi</body></message>");
+            else c.srvSend("<presence xmlns='" + ns + "' from='bob@" + DOMAIN.toUtf8() + "/x'/>");
+        } else if (op == "seg") {
+            // seg <op> + <op> + ...: the elements of several ops written to the socket in ONE segment
+            QByteArray buf;
+            c.capture = &buf;
+            for (const QString &sub : QString::fromStdString(opStr).mid(4).split(" + ", Qt::SkipEmptyParts)) perform(sub.trimmed().toStdString());
+            c.capture = nullptr;
+            c.srvSend(buf);
+        } else if (op == "partial") {
+            c.srvSend("<iq type='get' id='half");   // the beginning of an element; the rest never comes
+        } else if (op == "errclose") {
+            c.srvSend("<stream:error><conflict xmlns='urn:ietf:params:xml:ns:xmpp-streams'/></stream:error></stream:stream>");
+        } else if (op == "redirectclose") {
+            c.srvSend("<stream:error><see-other-host xmlns='urn:ietf:params:xml:ns:xmpp-streams'>127.0.0.1:" + QByteArray::number(c.srvB.serverPort()) + "</see-other-host></stream:error></stream:stream>");
+        } else if (op == "rst") {
+            // abrupt loss: TCP reset instead of an orderly close
+            auto k = c.conn();
+            if (k && !k->closed) {
+                struct linger lg { 1, 0 };
+                setsockopt(int(k->sock->socketDescriptor()), SOL_SOCKET, SO_LINGER, &lg, sizeof lg);
+                k->sock->abort();
+                k->closed = true;
+            }
+        } else if (op == "ws") {
+            c.srvSend(" ");   // whitespace keep-alive
+        } else if (op == "smr") {
+            c.srvSend("<r xmlns='urn:xmpp:sm:3'/>");
+        } else if (op == "sma") {
+            c.srvSend("<a xmlns='urn:xmpp:sm:3' h='0'/>");
         } else if (op == "iqset") {
             c.srvSend("<iq type='set' id='srv4' from='" + DOMAIN.toUtf8() + "'><query xmlns='urn:example:unknown'/></iq>");
         } else if (op == "iqresult") {
@@ -761,10 +815,6 @@ struct Runner {
             fprintf(stderr, "harness: unknown op '%s'\n", opStr.c_str());
             exit(3);
         }
-        long long st = c.settleTimeouts;
-        c.settle();
-        if (c.settleTimeouts != st) fprintf(stderr, "harness: ... during op '%s'\n", opStr.c_str());
-        return c.takeObs();
     }
 };
 
